@@ -1,0 +1,442 @@
+//! Deterministic-simulation seam.
+//!
+//! Compiled only with `--cfg terohuttunen_proto_vulcan_verif`; never part of a normal build.
+//! It holds no policy: a thread-local slot may contain a driver installed by an external
+//! simulator, and with no driver installed every hook is inert (insertion order, no budget,
+//! no yield, no probe). The module also provides insertion-ordered `HashMap`/`HashSet`
+//! replacements whose *iteration order* is chosen by the driver, so that the order in which
+//! constraints are re-run, domains are labeled and bindings are visited becomes a function of
+//! a seed instead of `RandomState` and heap addresses.
+use std::borrow::Borrow;
+use std::cell::{Cell, RefCell};
+use std::collections::hash_map::DefaultHasher;
+use std::fmt;
+use std::hash::{BuildHasherDefault, Hash};
+use std::panic::Location;
+
+/// Payload used to unwind out of the engine when the step budget is exhausted.
+#[derive(Debug, Clone, Copy)]
+pub struct BudgetExceeded {
+    pub quanta: u64,
+    pub work: u64,
+    pub work_cap: bool,
+}
+
+/// Goal-start sites that may yield (see `yield_here`).
+pub const SITE_GOAL_SOLVE: u8 = 0;
+pub const SITE_DFSGOAL_SOLVE: u8 = 1;
+pub const SITE_SOLVER_START: u8 = 2;
+pub const SITE_SOLVER_START_DFS: u8 = 3;
+
+pub trait SimDriver {
+    /// Visit order for one iteration over a container with `n` live entries; `prios[i]` is
+    /// the value `on_insert` returned when entry `i` (in insertion order) was inserted.
+    /// `None` means insertion order.
+    fn order(
+        &mut self,
+        _site: &'static Location<'static>,
+        _n: usize,
+        _prios: &[u64],
+    ) -> Option<Vec<usize>> {
+        None
+    }
+
+    /// Called once per newly inserted entry.
+    fn on_insert(&mut self) -> u64 {
+        0
+    }
+
+    /// Called at the entry of every `StreamEngine::step`; `depth` is 0 for calls made by the
+    /// `Solver::{next, peek, trunc}` loops and >0 for recursive calls. May unwind with
+    /// `BudgetExceeded` (via `std::panic::panic_any`).
+    fn enter_step(&mut self, _kind: u8, _depth: usize) {}
+
+    /// Whether the goal started at `site` should suspend once before running.
+    fn yield_here(&mut self, _site: u8) -> bool {
+        false
+    }
+
+    /// Reach probe.
+    fn probe(&mut self, _id: &'static str, _arg: u64) {}
+}
+
+thread_local! {
+    static DRIVER: RefCell<Option<Box<dyn SimDriver>>> = RefCell::new(None);
+    static DEPTH: Cell<usize> = Cell::new(0);
+    static SUPPRESS_YIELD: Cell<bool> = Cell::new(false);
+}
+
+/// Install a driver for the current thread; returns the previous one.
+pub fn install(driver: Box<dyn SimDriver>) -> Option<Box<dyn SimDriver>> {
+    DEPTH.with(|d| d.set(0));
+    SUPPRESS_YIELD.with(|s| s.set(false));
+    DRIVER.with(|slot| slot.borrow_mut().replace(driver))
+}
+
+/// Remove the current thread's driver.
+pub fn uninstall() -> Option<Box<dyn SimDriver>> {
+    DEPTH.with(|d| d.set(0));
+    SUPPRESS_YIELD.with(|s| s.set(false));
+    DRIVER.with(|slot| slot.borrow_mut().take())
+}
+
+#[inline]
+fn with_driver<R>(default: R, f: impl FnOnce(&mut dyn SimDriver) -> R) -> R {
+    DRIVER.with(|slot| match slot.try_borrow_mut() {
+        Ok(mut guard) => match guard.as_mut() {
+            Some(driver) => f(driver.as_mut()),
+            None => default,
+        },
+        Err(_) => default,
+    })
+}
+
+pub struct StepGuard(());
+
+impl Drop for StepGuard {
+    fn drop(&mut self) {
+        DEPTH.with(|d| d.set(d.get().saturating_sub(1)));
+    }
+}
+
+/// Step clock: first statement of `StreamEngine::step`.
+#[inline]
+pub fn enter_step(kind: u8) -> StepGuard {
+    let depth = DEPTH.with(|d| {
+        let v = d.get();
+        d.set(v + 1);
+        v
+    });
+    let guard = StepGuard(());
+    with_driver((), |drv| drv.enter_step(kind, depth));
+    guard
+}
+
+/// Cooperative yield point. Returns true at most once per goal start: the caller re-enters
+/// itself immediately and that nested call sees `false`.
+#[inline]
+pub fn yield_here(site: u8) -> bool {
+    if SUPPRESS_YIELD.with(|s| s.replace(false)) {
+        return false;
+    }
+    let y = with_driver(false, |drv| drv.yield_here(site));
+    if y {
+        SUPPRESS_YIELD.with(|s| s.set(true));
+    }
+    y
+}
+
+#[inline]
+pub fn probe(id: &'static str, arg: u64) {
+    with_driver((), |drv| drv.probe(id, arg));
+}
+
+fn visit_order(site: &'static Location<'static>, prios: &[u64]) -> Vec<usize> {
+    let n = prios.len();
+    if n >= 2 {
+        if let Some(order) = with_driver(None, |drv| drv.order(site, n, prios)) {
+            // A driver must return a permutation; anything else falls back to insertion order.
+            if order.len() == n {
+                let mut seen = vec![false; n];
+                let mut ok = true;
+                for &i in order.iter() {
+                    if i >= n || seen[i] {
+                        ok = false;
+                        break;
+                    }
+                    seen[i] = true;
+                }
+                if ok {
+                    return order;
+                }
+            }
+        }
+    }
+    (0..n).collect()
+}
+
+type Index<K> = std::collections::HashMap<K, usize, BuildHasherDefault<DefaultHasher>>;
+
+/// Insertion-ordered map with driver-chosen iteration order.
+#[derive(Clone)]
+pub struct HashMap<K, V> {
+    slots: Vec<Option<(K, V, u64)>>,
+    index: Index<K>,
+}
+
+impl<K: Hash + Eq + Clone, V> HashMap<K, V> {
+    pub fn new() -> HashMap<K, V> {
+        HashMap {
+            slots: Vec::new(),
+            index: Index::default(),
+        }
+    }
+
+    pub fn len(&self) -> usize {
+        self.index.len()
+    }
+
+    pub fn is_empty(&self) -> bool {
+        self.index.is_empty()
+    }
+
+    pub fn insert(&mut self, k: K, v: V) -> Option<V> {
+        match self.index.get(&k) {
+            Some(&i) => {
+                let slot = self.slots[i].as_mut().unwrap();
+                Some(std::mem::replace(&mut slot.1, v))
+            }
+            None => {
+                let prio = with_driver(0, |drv| drv.on_insert());
+                self.index.insert(k.clone(), self.slots.len());
+                self.slots.push(Some((k, v, prio)));
+                None
+            }
+        }
+    }
+
+    pub fn get<Q: ?Sized>(&self, k: &Q) -> Option<&V>
+    where
+        K: Borrow<Q>,
+        Q: Hash + Eq,
+    {
+        match self.index.get(k) {
+            Some(&i) => self.slots[i].as_ref().map(|s| &s.1),
+            None => None,
+        }
+    }
+
+    pub fn contains_key<Q: ?Sized>(&self, k: &Q) -> bool
+    where
+        K: Borrow<Q>,
+        Q: Hash + Eq,
+    {
+        self.index.contains_key(k)
+    }
+
+    pub fn remove<Q: ?Sized>(&mut self, k: &Q) -> Option<V>
+    where
+        K: Borrow<Q>,
+        Q: Hash + Eq,
+    {
+        match self.index.remove(k) {
+            Some(i) => {
+                let removed = self.slots[i].take().map(|s| s.1);
+                self.compact();
+                removed
+            }
+            None => None,
+        }
+    }
+
+    fn compact(&mut self) {
+        if self.slots.len() >= 8 && self.index.len() * 2 < self.slots.len() {
+            let old = std::mem::replace(&mut self.slots, Vec::new());
+            for slot in old.into_iter() {
+                if let Some(entry) = slot {
+                    *self.index.get_mut(&entry.0).unwrap() = self.slots.len();
+                    self.slots.push(Some(entry));
+                }
+            }
+        }
+    }
+
+    fn live(&self) -> Vec<&(K, V, u64)> {
+        self.slots.iter().filter_map(|s| s.as_ref()).collect()
+    }
+
+    #[track_caller]
+    pub fn iter(&self) -> std::vec::IntoIter<(&K, &V)> {
+        let live = self.live();
+        let prios: Vec<u64> = live.iter().map(|e| e.2).collect();
+        let order = visit_order(Location::caller(), &prios);
+        order
+            .into_iter()
+            .map(|i| (&live[i].0, &live[i].1))
+            .collect::<Vec<_>>()
+            .into_iter()
+    }
+
+    #[track_caller]
+    pub fn keys(&self) -> std::vec::IntoIter<&K> {
+        let live = self.live();
+        let prios: Vec<u64> = live.iter().map(|e| e.2).collect();
+        let order = visit_order(Location::caller(), &prios);
+        order
+            .into_iter()
+            .map(|i| &live[i].0)
+            .collect::<Vec<_>>()
+            .into_iter()
+    }
+
+    #[track_caller]
+    pub fn values(&self) -> std::vec::IntoIter<&V> {
+        let live = self.live();
+        let prios: Vec<u64> = live.iter().map(|e| e.2).collect();
+        let order = visit_order(Location::caller(), &prios);
+        order
+            .into_iter()
+            .map(|i| &live[i].1)
+            .collect::<Vec<_>>()
+            .into_iter()
+    }
+
+    #[track_caller]
+    fn into_ordered(self) -> Vec<(K, V)> {
+        let mut live: Vec<Option<(K, V, u64)>> =
+            self.slots.into_iter().filter(|s| s.is_some()).collect();
+        let prios: Vec<u64> = live.iter().map(|e| e.as_ref().unwrap().2).collect();
+        let order = visit_order(Location::caller(), &prios);
+        order
+            .into_iter()
+            .map(|i| {
+                let e = live[i].take().unwrap();
+                (e.0, e.1)
+            })
+            .collect()
+    }
+}
+
+impl<K: Hash + Eq + Clone, V> IntoIterator for HashMap<K, V> {
+    type Item = (K, V);
+    type IntoIter = std::vec::IntoIter<(K, V)>;
+
+    #[track_caller]
+    fn into_iter(self) -> Self::IntoIter {
+        self.into_ordered().into_iter()
+    }
+}
+
+impl<'a, K: Hash + Eq + Clone, V> IntoIterator for &'a HashMap<K, V> {
+    type Item = (&'a K, &'a V);
+    type IntoIter = std::vec::IntoIter<(&'a K, &'a V)>;
+
+    #[track_caller]
+    fn into_iter(self) -> Self::IntoIter {
+        self.iter()
+    }
+}
+
+impl<K: fmt::Debug, V: fmt::Debug> fmt::Debug for HashMap<K, V> {
+    fn fmt(&self, f: &mut fmt::Formatter<'_>) -> fmt::Result {
+        // Insertion order; never consults the driver.
+        f.debug_map()
+            .entries(
+                self.slots
+                    .iter()
+                    .filter_map(|s| s.as_ref())
+                    .map(|e| (&e.0, &e.1)),
+            )
+            .finish()
+    }
+}
+
+/// Insertion-ordered set with driver-chosen iteration order.
+#[derive(Clone)]
+pub struct HashSet<T> {
+    map: HashMap<T, ()>,
+}
+
+impl<T: Hash + Eq + Clone> HashSet<T> {
+    pub fn new() -> HashSet<T> {
+        HashSet {
+            map: HashMap::new(),
+        }
+    }
+
+    pub fn len(&self) -> usize {
+        self.map.len()
+    }
+
+    pub fn is_empty(&self) -> bool {
+        self.map.is_empty()
+    }
+
+    pub fn insert(&mut self, t: T) -> bool {
+        if self.map.contains_key(&t) {
+            false
+        } else {
+            self.map.insert(t, ());
+            true
+        }
+    }
+
+    pub fn contains<Q: ?Sized>(&self, t: &Q) -> bool
+    where
+        T: Borrow<Q>,
+        Q: Hash + Eq,
+    {
+        self.map.contains_key(t)
+    }
+
+    pub fn remove<Q: ?Sized>(&mut self, t: &Q) -> bool
+    where
+        T: Borrow<Q>,
+        Q: Hash + Eq,
+    {
+        self.map.remove(t).is_some()
+    }
+
+    pub fn take<Q: ?Sized>(&mut self, t: &Q) -> Option<T>
+    where
+        T: Borrow<Q>,
+        Q: Hash + Eq,
+    {
+        match self.map.index.remove(t) {
+            Some(i) => {
+                let taken = self.map.slots[i].take().map(|s| s.0);
+                self.map.compact();
+                taken
+            }
+            None => None,
+        }
+    }
+
+    #[track_caller]
+    pub fn iter(&self) -> std::vec::IntoIter<&T> {
+        self.map.keys()
+    }
+
+    #[track_caller]
+    pub fn drain(&mut self) -> std::vec::IntoIter<T> {
+        let map = std::mem::replace(&mut self.map, HashMap::new());
+        map.into_ordered()
+            .into_iter()
+            .map(|(k, _)| k)
+            .collect::<Vec<_>>()
+            .into_iter()
+    }
+}
+
+impl<T: Hash + Eq + Clone> IntoIterator for HashSet<T> {
+    type Item = T;
+    type IntoIter = std::vec::IntoIter<T>;
+
+    #[track_caller]
+    fn into_iter(self) -> Self::IntoIter {
+        self.map
+            .into_ordered()
+            .into_iter()
+            .map(|(k, _)| k)
+            .collect::<Vec<_>>()
+            .into_iter()
+    }
+}
+
+impl<'a, T: Hash + Eq + Clone> IntoIterator for &'a HashSet<T> {
+    type Item = &'a T;
+    type IntoIter = std::vec::IntoIter<&'a T>;
+
+    #[track_caller]
+    fn into_iter(self) -> Self::IntoIter {
+        self.iter()
+    }
+}
+
+impl<T: fmt::Debug> fmt::Debug for HashSet<T> {
+    fn fmt(&self, f: &mut fmt::Formatter<'_>) -> fmt::Result {
+        f.debug_set()
+            .entries(self.map.slots.iter().filter_map(|s| s.as_ref()).map(|e| &e.0))
+            .finish()
+    }
+}
